@@ -26,10 +26,10 @@ WORK = '/tmp/twincheck'
 def do_import():
     src_root = '/tmp/seedwork'
     for d in sorted(os.listdir(src_root)):
-        if not d.startswith(('tw_', 'tw2_', 'tw3_', 'tw4_')) or not os.path.isdir(os.path.join(src_root, d, '_twin')):
+        if not d.startswith(('tw_', 'tw2_', 'tw3_', 'tw4_', 'tw5_')) or not os.path.isdir(os.path.join(src_root, d, '_twin')):
             continue
         pid = d.split('_', 1)[1]
-        offset = {'tw2': 3, 'tw3': 6, 'tw4': 10}.get(d.split('_', 1)[0], 0)  # later rounds: ids t4..t6, t7..t9, t11..t13 (t10 is mine)
+        offset = {'tw2': 3, 'tw3': 6, 'tw4': 10, 'tw5': 14}.get(d.split('_', 1)[0], 0)  # later rounds: ids t4..t6, t7..t9, t11..t13, t15..t17 (t10, t14 are mine)
         td = os.path.join(src_root, d, '_twin')
         for k in (1, 2, 3, 4):
             diff = os.path.join(td, f'refactor{k}.diff')
@@ -42,7 +42,7 @@ def do_import():
                 continue
             os.makedirs(dst, exist_ok=True)
             shutil.copy(diff, os.path.join(dst, 'patch.diff'))
-            meta = {'id': tid, 'property': pid, 'source': 'independent sub-agent asked for a behaviour-preserving refactoring' + ({3: ' (second round: larger structural edits)', 6: ' (third round: moves between modules, performance rewrites, API modernisation, inverted structure)', 10: ' (fourth round: another algorithm, correct caching, generalised inputs, simplified control flow, restructuring behind the public API)'}.get(offset, '')),
+            meta = {'id': tid, 'property': pid, 'source': 'independent sub-agent asked for a behaviour-preserving refactoring' + ({3: ' (second round: larger structural edits)', 6: ' (third round: moves between modules, performance rewrites, API modernisation, inverted structure)', 10: ' (fourth round: another algorithm, correct caching, generalised inputs, simplified control flow, restructuring behind the public API)', 14: ' (fifth round: state done right, iterator plumbing, exception and context-manager restructuring, ordering and selection, scopes and binding)'}.get(offset, '')),
                     'agent_note': open(note, encoding='utf-8').read()}
             json.dump(meta, open(os.path.join(dst, 'meta.json'), 'w'), indent=1)
             print('imported', tid)
